@@ -167,6 +167,8 @@ ECO_NAMES = ["requests[security]", "Zope.Interface[Test_Extra]", "[Foo_Bar]x]", 
              "node_modules/@babel/core", "node_modules/left-pad", "node_modules/send/node_modules/ms", "vendor/github.com/a/b", "site-packages/requests",
              "org/apache/commons/commons-io", "gems/rake-13.0.6", "registry/src/index.crates.io/serde-1.0", "npm:@scope/pkg", "git+https://github.com/a/b.git",
              "file:../local", "workspace:*", "src/github.com/a/b", "pkg/mod/github.com/a/b@v1.2.3", "packages/Newtonsoft.Json.13.0.3",
+             "xn--bcher-kva.example/mod/pkg", "XN--BCHER-KVA.Example/a", "xn--/a", "b\u00fccher.example/mod/pkg", "xn--nxasmq6b.com/x", "host:8080/a/b", "user@host/a/b",
+             "127.0.0.1/a", "[::1]/a", "example.com./a", "EXAMPLE.com/A/b", "www.example.com/a", "example.com//a", "localhost/a",
              "name.git", "name.GIT", "lib.so.6", "pkg:npm/foo", "pkg%3Anpm", "file:///x", "C:\\x", "name ", " name", "na me", "name\t", "Name.Exe"]
 CLS_TYPE = ["t", "cargo", "gem", "golang", "maven", "npm", "nuget", "pypi", "deb"]
 CLS_NS = [[], ["acme"], ["@scope"], ["github.com", "phylum-dev"], ["%40scope%2Fevil"], ["\u00dcn\u00ef", "\u01c5" + KEL], ["a:b c&d=e"],
@@ -182,6 +184,8 @@ CLS_QUALS = [
     ([("checksum", None)], [("sha1", "00ff")]),
     ([("checksum", None)], [("md5", "00"), ("sha1", "11"), ("sha512", "22")]),
     ([("a_b", "1"), ("aab", "2"), ("a-b", "3")], None),
+    ([("file_name", "a.tgz"), ("file-name", "b.tgz"), ("file.name", "c")], None),
+    ([("repository_url", "https://a.example/"), ("repository-url", "https://b.example/"), ("vcs.url", "x")], None),
     ([("download_url", "https://e.com/x?y=1&z=2"), ("type", "jar"), ("classifier", "sources")], None),
     ([("repository_url", "svn+ssh://host/r+1"), ("checksum", None), ("zz", "%41")], [("a", ""), ("b", "0a")]),
 ]
@@ -560,7 +564,7 @@ def rand_quals_step(r, sep=":"):
     if c == 21:
         return "clear" if r.chance(1, 4) else "len"
     if c == 22:
-        return r.pick(["iter", "riter", "len", "ends", "tgck", "eqf", "eqf"])
+        return r.pick(["iter", "riter", "len", "ends", "tgck", "eqf", "eqf", "snap", "snap"])
     if c == 23:
         return J([r.pick(["imut", "rimut"]), v()])
     if c == 24:
@@ -604,6 +608,11 @@ def st_quals(ctx, n, label="quals", maxsteps=8, documented_panics=False):
             at = r.below(len(steps) + 1)
             steps[at:at] = ["ins:%s:%s" % (hx(flipcase(r, kk)), hx("1")), "idxmut:%s:%s" % (hx(flipcase(r, kk)), hx(r.pick(["2", "", "x y"]))),
                             "idx:%s" % hx(flipcase(r, kk))]
+        if r.chance(1, 3):
+            steps[r.below(len(steps) + 1):0] = ["snap"]      # a clone kept alive while the original goes on changing
+        if r.chance(1, 8):
+            # every key kept, every value edited, while a clone is alive
+            steps += ["ins:%s:%s" % (hx("a"), hx("X")), "ins:%s:%s" % (hx("key"), hx("Y")), "retlt:" + hx("l"), "snap", "retmut:" + hx("z"), "iter", "imut:" + hx("w"), "iter"]
         if r.chance(1, 2):
             steps.append("eqf")     # same content built from scratch: equal, same hash, same order — whatever the history
         if documented_panics and r.chance(1, 10):
@@ -944,6 +953,7 @@ def cksum_texts(ctx):
     for perm in itertools.permutations(["sha256", "sha512", "md5", "b"]):
         for rep in (perm[0], perm[1].upper()):
             out.append(",".join("%s:%02x" % (x, 17 * i) for i, x in enumerate(list(perm) + [rep])))
+    out += [",".join("hash%02d:%02xab" % (i, i) for i in reversed(range(n_))) for n_ in (8, 16, 17, 32, 33, 40, 64, 65, 100)]
     out += ["sha512:" + "ab" * n_ for n_ in (20, 32, 64, 65, 128, 129, 256)] + ["sha1:" + "AB" * 64 + ",md5:" + "0f" * 16]
     out += ["sha1:+aFF", "sha1:0x1F", "sha1:0x", "sha1:0X1f", "sha256:0xdeadbeef", "md5:00ff,sha1:0XAB", "sha1:1e", "sha1:١٢", "sha1:ａｂ", "a:00,b", "a:00,,b:11", "a::00", ":00", "a:", ","]
     if ctx.tier == "thorough":
@@ -1001,6 +1011,13 @@ def st_cmp(ctx, n, shapes, label="cmp"):
     # strings, so different PURLs (in every component)
     twins = [("e\u0301", "\u00e9"), ("\ufb01", "fi"), ("\uff21", "A"), ("\u212a", "K"), ("\u00df", "ss"), ("\u0130", "i\u0307"), ("\u1100\u1161", "\uac00"),
              ("a\u200bb", "ab"), (" a", "a"), ("a\u00adb", "ab"), ("\u212b", "\u00c5"), ("a", "\u0430"), ("A", "a"), ("\u03c3", "\u03c2"), ("a\u0000", "a")]
+    # a literal escape inside a URL-valued qualifier against the character it would denote: different values
+    for k_ in ("download_url", "repository_url", "vcs_url", "k"):
+        for x_, y_ in (("https://example.com/a%20b.tgz", "https://example.com/a b.tgz"), ("https://e.com/x%C3%A9", "https://e.com/x\u00e9"), ("https://e.com/a%23b", "https://e.com/a#b"),
+                       ("https://e.com/%41", "https://e.com/A"), ("https://e.com/%2F", "https://e.com//"), ("HTTPS://E.com/", "https://e.com/")):
+            sh = shapes[len(k_) % len(shapes)]
+            base_ = "pkg:%s/ns/n@1?%s=" % ("cargo" if sh == "P" else "t", k_)
+            out.append(case("cmp %s p/%s p/%s" % (sh, hx(base_ + urllib.parse.quote(x_, safe="")), hx(base_ + urllib.parse.quote(y_, safe=""))), "cmp-twins"))
     for x_, y_ in twins:
         q_ = lambda t: urllib.parse.quote(t, safe="")
         for tpl in ("pkg:t/ns/n%s@1", "pkg:t/ns%s/n@1", "pkg:t/ns/n@1%s", "pkg:t/ns/n@1?k=%s", "pkg:t/ns/n@1#s%s"):
